@@ -28,7 +28,7 @@ def step_numbers(M, desc, vals, pars, engine_kind, symvals):
     built = D.build(M, desc)
     kw = drive.step_pars(pars)
     if engine_kind == "numpy":
-        built.net.step(init_conditions=drive.np_init(built, vals, "vec1"), engine=NE(), **kw)
+        built.net.step(init_conditions=drive.np_init(built, vals, "vec1", int_dtype=INT["on"]), engine=NE(), **kw)
         return drive.read_next(built)
     symvals.clear()
     ic, syms = drive.sym_init(M, built, engine_kind, symvals, vals)
@@ -44,6 +44,9 @@ def step_numbers(M, desc, vals, pars, engine_kind, symvals):
     for (eid, name), v in zip(index, nums):
         out.setdefault(eid, {})[name] = v if name in ("rho", "v") else v[0]
     return out
+
+
+INT = {"on": False}  # whole-number states are handed to the NumPy engine as integer arrays
 
 
 def same(a, b, exact):
@@ -86,6 +89,10 @@ def relations(M, rec, rng, n_nets, symvals):
         ek = ("numpy", "numpy", "SX", "MX")[it % 4]
         for _draw in range(2 if ek == "numpy" else 1):
             _, vals = g.values(desc, allow_inf=False)
+            INT["on"] = ek == "numpy" and rng.random() < 0.25
+            if INT["on"]:
+                vals = drive.integerise(vals)
+                rec.count("paired_runs_with_integer_arrays")
             if R.is_singular(desc, vals):
                 rec.count("skipped_singular")
                 continue
